@@ -50,6 +50,8 @@ type Prop struct {
 	Post func(d *Driver)
 	// Workers overrides the number of worker processes (0 = default).
 	Workers int
+	// GoMaxProcs for each worker (0 = 2: one for the case, one for the watchdog).
+	GoMaxProcs int
 	// Assumptions go to the evidence file.
 	Assumptions []string
 }
@@ -596,7 +598,16 @@ func WorkerMain(propID, tier string, seed uint64, shard, of int, dir string, ski
 			return ExitHarness
 		}
 		n++
-		if n%1000 == 0 {
+		// checkpoint: every 1000 cases, more often for short plans (so that the
+		// statistics survive a crashing case)
+		every := plan.N / int64(of) / 20
+		if every < 1 {
+			every = 1
+		}
+		if every > 1000 {
+			every = 1000
+		}
+		if n%every == 0 {
 			r.flush(false, i+int64(of))
 		}
 	}
